@@ -787,6 +787,10 @@ impl World for C18World {
             }
         }
         st.inc(&format!("profile_{}", self.profile));
+        if !self.kind.starts_with("boolean") {
+            st.inc(&format!("build_{}", self.build));
+            st.inc(&format!("first_{}", self.first));
+        }
         // a scenario normally takes seconds; one that runs for minutes (a change that made something quadratic) is
         // stopped and noted — slowness is not what C18 is about
         let out = Command::new(exe)
